@@ -39,8 +39,9 @@ Judge(e) ==
          Verdict(<< <<ResAgrees(e.res, r, e.dec), "dec">>,
                     <<~IsPanic(e.res), "panic">>,
                     \* slice decoding: every borrowed leaf at the position it was encoded; reader decoding: disjoint parts of the
-                    \* scratch buffer (where in it, and which non-borrowed blocks pass through it, is not prescribed)
-                    <<r.ok => (IF IsReader(e.dec) THEN ReaderLeavesOK(e.leaves, r.tk, 0, e.avail) ELSE e.leaves = lv), "leaves">>,
+                    \* scratch buffer (where in it, and which non-borrowed blocks pass through it, is not prescribed; the harness's
+                    \* scratch is the input length + 16 bytes)
+                    <<r.ok => (IF IsReader(e.dec) THEN ReaderLeavesOK(e.leaves, r.tk, 0, IF Has(e, "avail") THEN e.avail ELSE Len(e.input) + 16) ELSE e.leaves = lv), "leaves">>,
                     <<r.ok => e.transient = 0, "leaves">>,
                     \* a sequence's size hint (what collection visitors pre-allocate from) never exceeds the bytes available
                     <<Has(e, "hints") => \A i \in 1..Len(e.hints) : e.hints[i][1] = 0 => e.hints[i][2] <= 4 * e.avail + 64, "hint">> >>,
